@@ -56,3 +56,22 @@ Definition conservation : Prop :=
     (forall e, In e (g_edges g) -> ssum (sturn P) (out_links g (e_up e)) <> 0) ->
     (forall e, In e (g_edges g) -> (1 <= sN U (e_link e))%nat) ->
     (forall n, out_links g n <> [] -> node_balance U P g st n) /\ network_balance U P g st.
+
+(* the same on the element-layer MODEL (the regenerated engines): the step of a valid network returns, for
+   every link segment and every queue, the very values (spec_rho_next, spec_w_next) the two balances are
+   stated on - C01's theorem and `conservation` in one statement *)
+From SM Require Import Engine Blocks.
+From SM.specs Require Import C01_spec.
+Definition model_conserves (E : engine R) : Prop :=
+  forall U (P : params R) g (st : state R),
+    wf_graph g -> validb U g = true ->
+    (forall e, In e (g_edges g) -> wf_link U st (e_link e)) ->
+    (forall e, In e (g_edges g) -> lp P (e_link e) Pturn <> 0) ->
+    (forall e, In e (g_edges g) -> lp P (e_link e) Prhocrit <> 0) ->
+    (forall e, In e (g_edges g) -> lp P (e_link e) PL * slam U (e_link e) <> 0) ->
+    (forall e, In e (g_edges g) -> ssum (sturn P) (out_links g (e_up e)) <> 0) ->
+    exists out,
+      network_step E U P g no_options st = Ok out /\
+      Forall2 (link_result_ok U P g st) (links g) (o_links out) /\
+      Forall2 (origin_result_ok U P g st) (map fst (origins_dict g)) (o_queues out) /\
+      (forall n, out_links g n <> [] -> node_balance U P g st n) /\ network_balance U P g st.
